@@ -2093,6 +2093,17 @@ impl HnswBackend {
             .next_wal_seq
             .load(Ordering::SeqCst)
             .saturating_sub(1);
+        // The segment the writer is appending to right now. It is normally the last one
+        // listed in MANIFEST, but a rotation that failed after publishing the new name
+        // leaves the writer on the previous segment; compaction must never delete it.
+        // (Read here, while writers are excluded: taking the WAL lock later, under the
+        // manifest lock, would invert the lock order used by rotation.)
+        let writer_segment = persistence
+            .wal
+            .read()
+            .path()
+            .file_name()
+            .map(|name| name.to_string_lossy().to_string());
 
         let store = self.doc_store.read();
 
@@ -2186,6 +2197,7 @@ impl HnswBackend {
             &persistence.data_dir,
             last_wal_seq,
             snapshot.timestamp,
+            writer_segment.as_deref(),
             &mut manifest,
         )?;
 
@@ -2975,6 +2987,7 @@ impl HnswBackend {
     /// - `data_dir`: Directory containing WAL files
     /// - `snapshot_last_wal_seq`: Last WAL sequence number included in the snapshot
     /// - `snapshot_timestamp`: Snapshot timestamp (for legacy WAL entries)
+    /// - `writer_segment`: Segment the WAL writer currently appends to (always kept)
     /// - `manifest`: Manifest to update (removes deleted WAL segments)
     ///
     /// # Returns
@@ -2985,12 +2998,13 @@ impl HnswBackend {
     /// - Only selects WAL segments listed in manifest (controlled cleanup)
     /// - Always keeps the current active WAL segment (last in list)
     /// - Never deletes a file itself: a durable MANIFEST must never list a missing segment
-    #[instrument(level = "debug", skip(self, data_dir, manifest), fields(snapshot_seq = snapshot_last_wal_seq, snapshot_ts = snapshot_timestamp))]
+    #[instrument(level = "debug", skip(self, data_dir, manifest, writer_segment), fields(snapshot_seq = snapshot_last_wal_seq, snapshot_ts = snapshot_timestamp))]
     fn compact_old_wal_segments(
         &self,
         data_dir: &Path,
         snapshot_last_wal_seq: u64,
         snapshot_timestamp: u64,
+        writer_segment: Option<&str>,
         manifest: &mut Manifest,
     ) -> Result<Vec<PathBuf>> {
         let mut obsolete = Vec::new();
@@ -3005,8 +3019,8 @@ impl HnswBackend {
         let active_wal_index = manifest.wal_segments.len().saturating_sub(1);
 
         for (idx, wal_name) in manifest.wal_segments.iter().enumerate() {
-            // Never delete active WAL
-            if idx == active_wal_index {
+            // Never delete active WAL (last listed, or the one the writer still appends to)
+            if idx == active_wal_index || writer_segment == Some(wal_name.as_str()) {
                 segments_to_keep.push(wal_name.clone());
                 continue;
             }
